@@ -41,19 +41,38 @@ pub fn batch_cases(seed: u64, n: usize) -> Vec<Case> {
             c.bytes.truncate(8000);
         }
         v.push(c);
+        if i % 5 == 4 {
+            // the same content under one changed setting: another launch may meet them in another order
+            let mut sib = v[v.len() - 1].clone();
+            match r.below(3) {
+                0 => sib.sett.lthr = *r.pick(&[0.7f32, 0.0, 0.4]),
+                1 => sib.sett.thr = *r.pick(&[0.45f32, 0.1, 0.3]),
+                _ => sib.sett.fb = !sib.sett.fb,
+            }
+            sib.tag = format!("sibling-settings:{}", sib.tag);
+            v.push(sib);
+        }
     }
     v
 }
 
-pub fn print_batch(seed: u64, n: usize) {
-    for c in batch_cases(seed, n) {
+pub fn print_batch(seed: u64, n: usize, reverse: bool) {
+    let cases = batch_cases(seed, n);
+    // a launch may evaluate the batch back to front (another history), the report is in batch order
+    let order: Vec<usize> = if reverse { (0..cases.len()).rev().collect() } else { (0..cases.len()).collect() };
+    let mut lines: Vec<String> = vec![String::new(); cases.len()];
+    for i in order {
+        let c = &cases[i];
         let o = real_detect(&c.bytes, &c.sett);
         // unicode ranges are part of the observable result too
         let ranges = match real_detect_raw(&c.bytes, &c.sett) {
             Ok(Ok(ms)) => ms.iter().map(|m| m.unicode_ranges().join("+")).collect::<Vec<_>>().join("/"),
             _ => String::new(),
         };
-        println!("{} ## {}", o.show(), ranges);
+        lines[i] = format!("{} ## {}", o.show(), ranges);
+    }
+    for l in lines {
+        println!("{}", l);
     }
 }
 
@@ -89,7 +108,7 @@ pub fn run(thorough: bool, seed: u64, _replay: Option<String>) -> Report {
     let exe = std::env::current_exe().expect("current exe");
     let mut outputs: Vec<String> = vec![];
     let children: Vec<_> = (0..k_proc)
-        .map(|_| Command::new(&exe).args(["batch", &seed.to_string(), &n.to_string()]).output())
+        .map(|k| Command::new(&exe).args(["batch", &seed.to_string(), &n.to_string(), if k % 2 == 1 { "reverse" } else { "forward" }]).output())
         .collect();
     for ch in children {
         match ch {
